@@ -47,6 +47,45 @@ Example weights_aligned_instance :
           [(0,0); (0,1); (0,2); (1,0); (2,0); (2,1)]%nat = true.
 Proof. vm_compute. reflexivity. Qed.
 
+(* ---- unequal systems: the closed form "sindex * equations" for w_offset ----
+   five reflects on port 1 and four on port 2 (measurements numbered 1..9): with the closed form
+   the first equation of system 1 gets the weight of measurement 5 (the last of system 0), the
+   loop form gives it its own; with the sizes the other way round the last equation of system 1
+   reads beyond the end of the vector *)
+Definition w_loop := weight_simple_loop nat nat S 0%nat.
+Definition w_closed := weight_simple_closed nat nat S 0%nat.
+
+Lemma closed_form_offset_refuted :
+  (exists sys s e, (s < length sys)%nat /\ (e < length (nth s sys []))%nat /\
+                   w_closed sys s e <> w_own sys s e /\ w_loop sys s e = w_own sys s e) /\
+  (exists sys s e, (s < length sys)%nat /\ (e < length (nth s sys []))%nat /\
+                   (length (calc_weights nat nat S 0%nat false sys) <= simple_index_closed nat sys s e)%nat /\
+                   w_loop sys s e = w_own sys s e).
+Proof.
+  split.
+  - exists [[1; 2; 3; 4; 5]; [6; 7; 8; 9]]%nat, 1%nat, 0%nat.
+    repeat split; try (simpl; lia); vm_compute; try discriminate; reflexivity.
+  - exists [[1; 2; 3; 4]; [5; 6; 7; 8; 9]]%nat, 1%nat, 4%nat.
+    repeat split; try (simpl; lia); vm_compute; reflexivity.
+Qed.
+
+(* instance of weights_aligned_loop's hypotheses: three systems of 5, 4 and 6 equations *)
+Example weights_aligned_loop_instance :
+  let sys := [[1; 2; 3; 4; 5]; [6; 7; 8; 9]; [10; 11; 12; 13; 14; 15]]%nat in
+  forallb (fun s => forallb (fun e => Nat.eqb (w_loop sys s e) (w_own sys s e))
+                            (seq 0 (length (nth s sys [])))) (seq 0 (length sys)) = true /\
+  running_offsets nat 0 sys = [0; 5; 9]%nat.
+Proof. split; vm_compute; reflexivity. Qed.
+
+(* leakage cells with 0, 1 and several samples: E12 2x2, 7 equations and 5 unknowns per column:
+   no samples (every standard connects the two ports) 8; one sample per cell 8; three samples in
+   one cell and none in the other 12.  The unguarded variant takes 2 away per empty cell. *)
+Example dof_leak_instances :
+  dof 5 [7; 7]%Z [0; 0]%Z = 8%Z /\ dof 5 [7; 7]%Z [1; 1]%Z = 8%Z /\ dof 5 [7; 7]%Z [3; 0]%Z = 12%Z /\
+  dof_of_standards 5 [7; 7]%Z [[(true, true); (true, true)]; [(true, false); (false, false); (true, true)]] = 8%Z /\
+  dof_leakage_unguarded [0; 0]%Z (dof_systems 5 [7; 7]%Z) = 4%Z.
+Proof. repeat split; vm_compute; reflexivity. Qed.
+
 (* degrees of freedom: 2x2 T8 with 16 equations, 7 unknowns, no leakage: 18;
    2x2 E12 with 8 equations per column, 5 unknowns per column, two leakage cells with 4 samples: 24 *)
 Example dof_instances : dof 7 [16%Z] [] = 18%Z /\ dof 5 [8; 8]%Z [4; 4]%Z = 24%Z.
